@@ -1,0 +1,25 @@
+//go:build verif
+
+// Package verifhook (build tag verif): Yield calls the handler installed by the verification harness, which may
+// block the calling goroutine at a named point so that a schedule can be forced. Without a handler it is a no-op.
+package verifhook
+
+import "sync/atomic"
+
+var handler atomic.Pointer[func(point string)]
+
+// SetHandler installs (or, with nil, removes) the scheduling handler.
+func SetHandler(h func(point string)) {
+	if h == nil {
+		handler.Store(nil)
+		return
+	}
+	handler.Store(&h)
+}
+
+// Yield marks a point between two critical sections.
+func Yield(point string) {
+	if h := handler.Load(); h != nil {
+		(*h)(point)
+	}
+}
